@@ -3,7 +3,7 @@
 
 use crate::gen::{Gen, GenCfg};
 use crate::ops::{ExecCfg, Op, Replay, ViolationRec};
-use crate::payload::{self, Big, Payload, Tracked, Unit, Wide};
+use crate::payload::{self, Big, Opt, Payload, Tracked, Unit, Wide};
 use crate::prng::{run_seed, Fnv, Rng};
 use crate::world::{Stats, Viol, World};
 use std::collections::BTreeMap;
@@ -159,6 +159,7 @@ pub fn exec_dyn(prop: &str, cfg: &ExecCfg, next: &mut dyn FnMut(&crate::model::M
         "string" => exec::<String>(prop, cfg, |w| next(&w.m), progress),
         "unit" => exec::<Unit>(prop, cfg, |w| next(&w.m), progress),
         "big" => exec::<Big>(prop, cfg, |w| next(&w.m), progress),
+        "opt" => exec::<Opt>(prop, cfg, |w| next(&w.m), progress),
         _ => exec::<Tracked>(prop, cfg, |w| next(&w.m), progress),
     }
 }
